@@ -383,15 +383,20 @@ def build_ops(rng, case, abandon=False, run_form=False):
         if i not in done_hosts:
             ops.append("flush %d" % i)
     if rng.random() < 0.3 and not run_form:
-        # read(2) faults: short reads / spurious EAGAIN / EINTR at some or all handler calls
+        # read(2) faults: short reads / spurious EAGAIN / EINTR at some or all handler calls.  A cap of k bytes on a
+        # stream of n bytes costs about n/k handler calls: small caps only on small streams
         every = rng.random() < 0.4
+        size = {k: len(case.payload(k)) for k in case.streams}
         ops2 = []
         for op in ops:
             w = op.split()
             if w[0] in ("feed", "eof", "drain") and (every or rng.random() < 0.4):
-                cap = rng.choice(["-", "-", "0", "1", "2", "7", "63", "64", "65", "500", "999", "1000", "1001", "4000"])
+                n = size.get((int(w[1]), w[2]), 0)
+                caps = [c for c in ("-", "-", "0", "1", "2", "7", "63", "64", "65", "500", "999", "1000", "1001", "4000")
+                        if c in ("-", "0") or int(c) * 300 >= n]
+                cap = rng.choice(caps)
                 if w[0] == "drain" and cap == "0":
-                    cap = "1"
+                    cap = "-"
                 op = "%s %s %s" % (op, cap, rng.choice(["0", "0", "1", "2", "4"]))
             ops2.append(op)
         ops = ops2
